@@ -102,6 +102,12 @@ def argn_family(rng, n):
     return out
 
 
+# called lambdas with parameters that are not plain: since repo fixes 8f72987 / 55520b1 they are left as calls (or substituted
+# when only plain parameters are involved) - either way the value is the original's (seed C02-w9-0; not keyed: a failure
+# here is an ordinary violation)
+CALLED_NONPLAIN_PROBES = ["(lambda x, *, k=3: x + k)(1)", "(lambda p=1, /, q=2: p + q)(5)", "(lambda x, *r: x + 1)(4)",
+                          "Select(seq, lambda v: (lambda x, *, k=3: x + k)(v))", "(lambda x, *, k=3: x + k)(1, k=2)",
+                          "Select(seq, lambda v: (lambda a, b=2: a * b)(v))"]
 KWONLY_PROBES = ["(lambda k: Select(seq, lambda x, *, k=1: x + k))(5)", "(lambda k: Select(seq, lambda x, /, k=1: x + k))(5)"]
 
 
@@ -113,7 +119,7 @@ def kwonly_binder_probe(ctx, key):
     def Select(s, f):
         return [f(v) for v in s]
 
-    for text in KWONLY_PROBES:
+    for text in CALLED_NONPLAIN_PROBES + KWONLY_PROBES:
         want = eval(text, {"Select": Select, "seq": [1, 2, 3]})
         ctx.count("kwonly-binder-probe:" + text, True, tags=["keyword-only / positional-only binder probe"])
         try:
@@ -124,7 +130,8 @@ def kwonly_binder_probe(ctx, key):
             have, shown = f"raises {type(e).__name__}: {e}"[:160], ""
         if have != want:
             ctx.violate({"src": text, "out": shown, "python_original": repr(want), "python_simplified": repr(have)},
-                        "a parameter that is not among args.args (keyword-only / positional-only) is not treated as a binder", key=key)
+                        "a parameter that is not among args.args (keyword-only / positional-only) is not treated as a binder",
+                        key=key if text in KWONLY_PROBES else None)
 
 
 def reuse_family(rng, n):
